@@ -324,6 +324,12 @@ def refused_seek_histories(tier):
                     for (wh, d, sym) in bads:
                         ops += [{"op": "write", "runs": [[f.next(), wn]]}, {"op": "position"},
                                 {"op": "seek", "whence": wh, "d": d, "sym": sym}, {"op": "position"}, {"op": "len"}]
+                    if init is not None:
+                        # ... and the same refusals while the handle holds UNREAD buffered data (a partial read filled the
+                        # window): the cursor must stay where the read left it, and the next read must continue from there
+                        for (wh, d, sym) in bads:
+                            ops += [{"op": "seek", "whence": "start", "d": 3, "sym": ""}, {"op": "read", "n": 7 if wn < 1000 else 40}, {"op": "position"},
+                                    {"op": "seek", "whence": wh, "d": d, "sym": sym}, {"op": "position"}, {"op": "read", "n": 9}, {"op": "position"}]
                     for sym in ("u64max", "i64max") + (("v3_4g", "v3_5g", "v3_16t") if ver == 3 else ()):
                         ops += [{"op": "write", "runs": [[f.next(), wn]]}, {"op": "set_len", "n": 0, "sym": sym},
                                 {"op": "len"}, {"op": "position"}, {"op": "seek", "whence": "end", "d": 0, "sym": ""}, {"op": "position"}]
